@@ -561,7 +561,7 @@ fn child_main(ctx: &Ctx, path: &str) -> ! {
     let reps: u32 = std::env::var("RTCVERIF_C20_REPS").ok().and_then(|s| s.parse().ok()).unwrap_or(1);
     let text = std::fs::read_to_string(path).unwrap_or_else(|e| {
         eprintln!("c20 child: cannot read {path}: {e}");
-        std::process::exit(2)
+        crate::engine::exit_trouble()
     });
     let out = std::io::stdout();
     let emit = |s: String| {
@@ -911,7 +911,7 @@ fn seq_check_one(c: &SeqCase, rec: &CaseRec, timeout: Duration) -> Check {
     let r = run_items(&[line], 1, timeout, "seq1", &mut tot);
     if let Some(e) = tot.tool_errors.first() {
         eprintln!("harness: C20 sequential child could not run: {e}");
-        std::process::exit(2);
+        crate::engine::exit_trouble();
     }
     let r: Unit<SeqResult> = match r.into_iter().next().unwrap_or(Unit::NotRun) {
         Unit::NotRun => Unit::NotRun,
@@ -1032,7 +1032,7 @@ fn run_sequential(ctx: &Ctx) -> bool {
     let totals = totals.into_inner();
     if let Some(e) = totals.tool_errors.first() {
         eprintln!("harness: C20 sequential engine failed (not a verdict): {e}");
-        std::process::exit(2);
+        crate::engine::exit_trouble();
     }
     // re-derive the cases (same seeded streams as the children) to record them
     let strat = seq_strategy();
@@ -1150,7 +1150,7 @@ fn native_check_one(ctx: &Ctx, c: &NativeCase, rec: &CaseRec, timeout: Duration)
     let r = run_scripts(&[c.script.clone()], c.reps, timeout, "one", &mut tot);
     if let Some(e) = tot.tool_errors.first() {
         eprintln!("harness: C20 native child could not run: {e}");
-        std::process::exit(2);
+        crate::engine::exit_trouble();
     }
     native_verdict(ctx, &sc, &r[0], rec)
 }
@@ -1221,7 +1221,7 @@ fn run_native(ctx: &Ctx, steer_mp: bool) -> bool {
     let totals = totals.into_inner();
     if let Some(e) = totals.tool_errors.first() {
         eprintln!("harness: C20 native engine failed (not a verdict): {e}");
-        std::process::exit(2);
+        crate::engine::exit_trouble();
     }
 
     let mut reported: Vec<String> = Vec::new();
@@ -1639,7 +1639,7 @@ fn run_miri(ctx: &Ctx, steer_mp: bool) {
     let run_timeout = Duration::from_secs(ctx.scale(180, 300));
     let tool_fail = |m: String| -> ! {
         eprintln!("harness: C20 Miri engine failed (not a verdict): {m}");
-        std::process::exit(2)
+        crate::engine::exit_trouble()
     };
     if let Err(e) = ensure_miri_crate(&dir) {
         tool_fail(e);
@@ -1787,6 +1787,6 @@ pub fn run(ctx: &mut Ctx) {
     ctx.set_exhaustive(false);
     if !no_hang && !ctx.has_violation() && !ctx.is_replay() {
         eprintln!("harness: C20 inconclusive: a native child process hung (watchdog); see inconclusive_timing");
-        std::process::exit(2);
+        crate::engine::exit_trouble();
     }
 }
